@@ -159,6 +159,20 @@ def run(ctx):
     ctx.floor("C14-TAINT", nt, 40, "constructs reached by file numbers")
     ctx.floor("C14-TAINT", len(R.taint.field_taint), 5, "helper-struct fields that carry file numbers")
     census.report_sites(ctx, R, "C14-TAINT", ("tainted",), "C14", "tainted")
+    # --- side conditions of the reviewed discharges shared with C01 ------------------------------------------
+    ctx.rule("C14-REQ", "the facts elsewhere in the crate that the reviewed discharges of crash sites rest on (who constructs a value, who calls a helper, "
+             "which length test precedes it) still hold - also for the sites filed under C01, since a crash on a hostile file violates both")
+    nreq = 0
+    for e in R.table:
+        if e.get("property") == "C14":
+            continue        # reported with the site itself by C14-TAINT
+        for rq in e.get("requires", []):
+            nreq += 1
+            okq, whyq = census.requirement(f, rq)
+            ctx.check(okq, "C14-REQ", "%s#%s:%s" % (e["fn"], e["site"], rq["kind"] + ":" + str(rq.get("fn") or rq.get("adt")) + (":" + str(rq.get("variant") or rq.get("const") or ""))),
+                      "the reviewed reason for %s in %s (\"%s\") rests on a fact that no longer holds: %s" % (e["site"], e["fn"], e["reason"][:140], whyq),
+                      (f.bodies.get(e["fn"]) or {}).get("span", ""), detail=whyq)
+    ctx.floor("C14-REQ", nreq, 10, "machine-checked side conditions")
     # --- loops over file-derived ranges -----------------------------------------------------------------
     ctx.rule("C14-K4", "a loop over a numeric range whose end is a file number needs the end compared / bounded, or a body that consumes input")
     n4 = 0
